@@ -17,6 +17,7 @@ CAUSES = {
          "// and % are emitted as C '/' and '%' (truncate toward zero); Python floors (differs when signs differ)"),
         (("expr/truediv", "expr/round_div", "expr/mixed_cmp"), "int / int is emitted as C integer division; Python's / is true division"),
         (("expr/land_val", "expr/lor_val"), "`a and b` / `a or b` are emitted as && / || (0 or 1); Python yields one of the operands"),
+        (("stmt/fn_local_shadow",), "an assignment inside a helper function to a name that is also a global is emitted as an assignment to the global (Python: a new local)"),
         (("stmt/persist_list",), "len(xs) is folded to the transpile-time length although xs is appended to at run time in the main loop"),
     ],
 }
@@ -40,6 +41,12 @@ CAUSES["C03"] = [
     (("fold/len_append", "fold/len_remove", "fold/len_str_reassign"),
      "len(name) is folded from the transpile-time environment although the value is changed in a branch / loop body / at run time"),
     (("fold/flash_pattern_name_mut",), "flash_pattern(name) bakes in the list as known at transpile time although it is appended to in a branch at run time"),
+]
+
+
+CAUSES["C03"] += [
+    (("fold/sibling_list_len_else",), "an append in one arm of an if/else mutates the transpile-time list in place, so len(name) folded in the sibling arm already counts it"),
+    (("fold/local_shadows_const",), "an assignment inside a helper function to a name that is also a global is emitted as an assignment to the global (Python: a new local); the global constant read later has changed"),
 ]
 
 
